@@ -364,3 +364,13 @@ PROPS["C05"] = dict(
     assumptions=GLUE_ASSUME,
     no_native_replay=True,
 )
+
+
+def _c15(pid, tier, seed):
+    import c15
+    return c15.run(pid, tier, seed)
+
+
+PROPS["C15"] = dict(custom=_c15, level="model_checking",
+                    technique="symbolic execution of the disassembled AVX/SSE kernels with z3 (asmsmt): len and base addresses as bit-vector variables, lanes as exact-integer terms, per-lane Float32 lemmas",
+                    runs={"quick": [], "thorough": []})
